@@ -6,7 +6,9 @@ from props.regcommon import RB, catalogue
 from vlib import flatten_idx
 
 ID = "C06"
-THEOREMS = []
+THEOREMS = [("FlatModel.Props.C06Opt", t) for t in (
+    "FC.C06.optimal", "FC.C06.optimal'", "FC.C06.optimal_nat", "FC.C06.lengths_kraft_eq_one", "FC.C06.lengths_pos",
+    "FC.C06.canonical_is_prefix_free", "FC.C06.code_lt", "FC.C06.single_symbol_one_bit", "FC.C06.lookup_some_iff")]
 PROFILES = {"quick": ["checked", "wrapping"], "thorough": ["checked", "wrapping"], "search": ["checked", "wrapping"]}
 RULE = ("frequency profiles (1 symbol, equal counts, Fibonacci counts forcing 9..20-bit codes, near-uniform 2..17 symbols, "
         "257..600 equiprobable u16 symbols, all profiles over <=3 symbols with counts <=3) x item sequences covering every "
